@@ -276,6 +276,38 @@ Definition agree_trace (c : trace_case) : bool :=
   | Some s => if c_settled c then negb (machine_enabled (c_start c) s) else true
   end.
 
+(* ------------------------------------------------------------------ re-execution of ONE machine
+   A SyncMachine is a long-lived object: Execute can be called on it again (an attempt aborted
+   by a failing Initiate / Next, then a retry from a later start block).  Execute writes none
+   of the machine's fields (logger, channel, blockCounter, initialState), every handler it
+   registered is cancelled on every return path, and the receive buffer is
+   `recvChan := make(chan net.Message, syncReceiveBuffer)` at the top of Execute: a fresh one
+   per call; whatever the previous call left in its buffer is garbage.  [reuse = true] is the
+   machine that would keep ONE buffer for its whole life (kept to state what goes wrong);
+   the code is [reuse = false]. *)
+Definition exec_state (carry : list N) (h0 : N) : mstate :=
+  {| ctl_ := CBoot; height := h0; buf := carry |}.
+Definition carried (reuse : bool) (s : mstate) : list N := if reuse then buf s else [].
+Fixpoint run_hist_from (reuse : bool) (carry : list N) (rs : list trace_case) : option (list mstate) :=
+  match rs with
+  | [] => Some []
+  | r :: t =>
+      match run_from (c_prog r) (c_start r) (exec_state carry (c_h0 r)) (c_events r) with
+      | Some s => match run_hist_from reuse (carried reuse s) t with
+                  | Some ss => Some (s :: ss)
+                  | None => None
+                  end
+      | None => None
+      end
+  end.
+Definition run_history (rs : list trace_case) : option (list mstate) := run_hist_from false [] rs.
+
+(* every message handed to a state in an execution was accepted from the channel during THAT
+   execution (spec_trace's MRecv clause, per execution: the oldest message accepted in this
+   execution and not yet handed over) and every execution keeps its own block windows *)
+Definition spec_hist (rs : list trace_case) : bool := forallb spec_trace rs.
+Definition agree_hist (rs : list trace_case) : bool := forallb agree_trace rs.
+
 (* ------------------------------------------------------------------ the real state lists *)
 Definition mk (d a : Z) : st :=
   {| delay := Z.to_N d; active := Z.to_N a; init_err := false; next_err := false |}.
@@ -330,6 +362,8 @@ Definition sum_da (l : list (N * N)) : N := fold_right (fun x acc => fst x + snd
 (* ------------------------------------------------------------------ cases and judge *)
 Inductive case :=
 | CTrace (c : trace_case)
+(* the SAME SyncMachine instance executed several times, one observed trace per Execute call *)
+| CHist (runs : list trace_case)
 (* the (DelayBlocks, ActiveBlocks) of the real state chain walked through Next(), and the value
    returned by the Go total-duration function *)
 | CDur (proto : N) (states : list (N * N)) (total : N).
@@ -338,6 +372,9 @@ Definition judge (c : case) : verdict :=
   match c with
   | CTrace c =>
       if is_nil (c_prog c) then BadCase else decide (spec_trace c) (agree_trace c)
+  | CHist rs =>
+      if is_nil rs || existsb (fun c => is_nil (c_prog c)) rs then BadCase
+      else decide (spec_hist rs) (agree_hist rs)
   | CDur proto states total =>
       if 1 <? proto then BadCase else
       decide (sum_da states =? total)
@@ -357,14 +394,17 @@ Fixpoint accepted_prefix (prog : program) (start : N) (s : mstate) (evs : list e
 Inductive explanation :=
 | XTrace (events_total accepted_events : nat) (at_state : mstate) (machine_still_enabled : bool)
          (spec_events spec_exact : bool)
-| XDur (model_states : list (N * N)) (model_total : Z).
+| XDur (model_states : list (N * N)) (model_total : Z)
+| XHist (runs : list explanation).
+Definition explain_trace (c : trace_case) : explanation :=
+  let '(n, s) := accepted_prefix (c_prog c) (c_start c) (init_state (c_h0 c)) (c_events c) 0 in
+  XTrace (length (c_events c)) n s (machine_enabled (c_start c) s)
+         (all_ok (ev_ok (c_prog c) (c_start c) (c_h0 c) (c_total c)) [] (c_events c))
+         (all_ok (ev_exact (c_prog c) (c_start c) (c_h0 c)) [] (c_events c)).
 Definition explain (c : case) : explanation :=
   match c with
-  | CTrace c =>
-      let '(n, s) := accepted_prefix (c_prog c) (c_start c) (init_state (c_h0 c)) (c_events c) 0 in
-      XTrace (length (c_events c)) n s (machine_enabled (c_start c) s)
-             (all_ok (ev_ok (c_prog c) (c_start c) (c_h0 c) (c_total c)) [] (c_events c))
-             (all_ok (ev_exact (c_prog c) (c_start c) (c_h0 c)) [] (c_events c))
+  | CTrace c => explain_trace c
+  | CHist rs => XHist (map explain_trace rs)
   | CDur proto _ _ =>
       XDur (map (fun s => (delay s, active s)) (real_states proto)) (real_total proto)
   end.
